@@ -1,7 +1,13 @@
 package main
 
 import (
+	"bytes"
+	"fmt"
 	"math/big"
+	"sort"
+	"strings"
+
+	"github.com/nspcc-dev/neo-go/pkg/crypto/keys"
 
 	"github.com/nspcc-dev/neo-go/pkg/core/transaction"
 	"github.com/nspcc-dev/neo-go/pkg/io"
@@ -182,7 +188,162 @@ func (w *world) oracle(o *hx.Out, k int, idx uint32, pre, post *absState, xs []x
 			fail("delta-events", "%s balance of %s changed by %s, net Transfer events %s", tok, kk.h.StringBE(), d, n)
 		}
 	}
+	w.electionOracle(o, k, idx, pre, post)
 	w.getters(o, k, idx, post)
+}
+
+// electExpected: the committee (with votes, in election order) that the election rule yields over the
+// state st, written from the rule, not from the code: the registered candidates whose account is not
+// blocked, most votes first, ties by key; the standby committee when less than 20% of the NEO supply
+// votes or there are fewer candidates than seats.
+func (w *world) electExpected(st *absState) []cvRec {
+	var cs []cvRec
+	for _, c := range st.cands {
+		if c.reg && !st.blocked[c.pub.GetScriptHash()] {
+			cs = append(cs, cvRec{pub: c.pub, votes: c.votes})
+		}
+	}
+	sort.Slice(cs, func(i, j int) bool {
+		if d := cs[i].votes.Cmp(cs[j].votes); d != 0 {
+			return d > 0
+		}
+		return cs[i].pub.Cmp(cs[j].pub) < 0
+	})
+	turnout := new(big.Int).Mul(st.voters, big.NewInt(5))
+	if turnout.Cmp(st.neoSupply) >= 0 && len(cs) >= w.C {
+		return cs[:w.C]
+	}
+	res := make([]cvRec, w.C)
+	for i := range res {
+		res[i] = cvRec{pub: w.standby[i].PublicKey(), votes: new(big.Int)}
+		for _, c := range cs {
+			if c.pub.Equal(res[i].pub) {
+				res[i].votes = c.votes
+			}
+		}
+	}
+	return res
+}
+
+func sortedFirst(cvs []cvRec, n int) keys.PublicKeys {
+	var ps keys.PublicKeys
+	for i := 0; i < n && i < len(cvs); i++ {
+		ps = append(ps, cvs[i].pub)
+	}
+	sort.Sort(ps)
+	return ps
+}
+
+func samePubs(a, b keys.PublicKeys) bool {
+	if len(a) != len(b) {
+		return false
+	}
+	for i := range a {
+		if !a[i].Equal(b[i]) {
+			return false
+		}
+	}
+	return true
+}
+
+// electionOracle: the committee and validators the real chain reports after block idx against the election
+// rule evaluated on the decoded storage (pre = state after block idx-1).
+func (w *world) electionOracle(o *hx.Out, k int, idx uint32, pre, post *absState) {
+	fail := func(key, f string, a ...any) {
+		o.Fail(key, k, "block %d: "+f, append([]any{idx}, a...)...)
+	}
+	if len(post.committee) != w.C {
+		fail("committee-size", "stored committee has %d members, committee size is %d", len(post.committee), w.C)
+	}
+	for i := range post.committee {
+		for j := 0; j < i; j++ {
+			if post.committee[i].pub.Equal(post.committee[j].pub) {
+				fail("committee-duplicate", "committee member %x twice", post.committee[i].pub.Bytes())
+			}
+		}
+	}
+	if idx%uint32(w.C) == 0 && idx > 0 {
+		// the committee installed by this block's OnPersist was elected over the state at the end of the previous block
+		exp := w.electExpected(pre)
+		same := len(exp) == len(post.committee)
+		for i := 0; same && i < len(exp); i++ {
+			same = exp[i].pub.Equal(post.committee[i].pub) && exp[i].votes.Cmp(post.committee[i].votes) == 0
+		}
+		if !same {
+			fail("committee-election", "committee installed %s, election over the previous block's state gives %s", w.cvString(post.committee), w.cvString(exp))
+		}
+		o.Count("election:checked")
+		std := true
+		for i := range exp {
+			std = std && exp[i].pub.Equal(w.standby[i].PublicKey())
+		}
+		if !std {
+			o.Count("election:elected-not-standby")
+		}
+		t5 := new(big.Int).Mul(pre.voters, big.NewInt(5))
+		switch d := new(big.Int).Sub(t5, pre.neoSupply); {
+		case d.Sign() >= 0 && d.Cmp(big.NewInt(5)) < 0:
+			o.Count("election:turnout-exactly-at-threshold")
+		case d.Sign() < 0 && d.Cmp(big.NewInt(-5)) >= 0:
+			o.Count("election:turnout-one-below-threshold")
+		case d.Sign() >= 0:
+			o.Count("election:turnout-above")
+		default:
+			o.Count("election:turnout-below")
+		}
+		n := 0
+		tie := false
+		var elig []*candRec
+		for _, c := range pre.cands {
+			if c.reg && !pre.blocked[c.pub.GetScriptHash()] {
+				n++
+				elig = append(elig, c)
+			}
+			if c.reg && pre.blocked[c.pub.GetScriptHash()] {
+				o.Count("election:blocked-registered-candidate")
+			}
+		}
+		for i := range elig {
+			for j := 0; j < i; j++ {
+				tie = tie || elig[i].votes.Cmp(elig[j].votes) == 0 && elig[i].votes.Sign() > 0
+			}
+		}
+		if tie {
+			o.Count("election:vote-tie-between-candidates")
+		}
+		switch {
+		case n == w.C:
+			o.Count("election:candidates-exactly-seats")
+		case n == w.C-1:
+			o.Count("election:candidates-one-short")
+		case n > w.C:
+			o.Count("election:candidates-more-than-seats")
+		}
+	}
+	if !samePubs(post.nextVals, sortedFirst(post.committee, w.V)) {
+		fail("validators", "GetNextBlockValidators differs from the sorted first %d committee members", w.V)
+	}
+	var all keys.PublicKeys
+	for _, c := range post.committee {
+		all = append(all, c.pub)
+	}
+	sort.Sort(all)
+	if !samePubs(post.sortedCom, all) {
+		fail("validators", "GetCommittee differs from the stored committee")
+	}
+	if (idx+1)%uint32(w.C) == 0 {
+		if !samePubs(post.neVals, sortedFirst(w.electExpected(post), w.V)) {
+			fail("committee-election", "ComputeNextBlockValidators at the end of the epoch differs from the election over the current state")
+		}
+	}
+}
+
+func (w *world) cvString(cvs []cvRec) string {
+	var es []string
+	for _, c := range cvs {
+		es = append(es, fmt.Sprintf("%d:%s", w.pid(c.pub), c.votes))
+	}
+	return "[" + strings.Join(es, ",") + "]"
 }
 
 // getters compares the decoded storage with what the contracts' own read methods return
@@ -203,6 +364,8 @@ func (w *world) getters(o *hx.Out, k int, idx uint32, post *absState) {
 	emit.AppCall(bw.BinWriter, w.neoH, "totalSupply", callflag.ReadOnly)
 	emit.AppCall(bw.BinWriter, w.gasH, "totalSupply", callflag.ReadOnly)
 	emit.AppCall(bw.BinWriter, w.neoH, "getCandidates", callflag.ReadOnly)
+	emit.AppCall(bw.BinWriter, w.neoH, "getCommittee", callflag.ReadOnly)
+	emit.AppCall(bw.BinWriter, w.neoH, "getNextBlockValidators", callflag.ReadOnly)
 	for _, h := range hs {
 		emit.AppCall(bw.BinWriter, w.neoH, "balanceOf", callflag.ReadOnly, h)
 		emit.AppCall(bw.BinWriter, w.gasH, "balanceOf", callflag.ReadOnly, h)
@@ -218,7 +381,8 @@ func (w *world) getters(o *hx.Out, k int, idx uint32, post *absState) {
 		return
 	}
 	st := v.Estack().ToArray() // bottom first
-	if len(st) != 3+4*len(hs) {
+	const nHead = 5
+	if len(st) != nHead+4*len(hs) {
 		fail("getters-shape", "getter script returned %d items", len(st))
 		return
 	}
@@ -239,7 +403,7 @@ func (w *world) getters(o *hx.Out, k int, idx uint32, post *absState) {
 	if arr, ok := st[2].Value().([]stackitem.Item); ok {
 		n := 0
 		for _, c := range post.cands {
-			if c.reg {
+			if c.reg && !post.blocked[c.pub.GetScriptHash()] {
 				n++
 			}
 		}
@@ -261,6 +425,31 @@ func (w *world) getters(o *hx.Out, k int, idx uint32, post *absState) {
 	} else {
 		fail("getters-shape", "getCandidates() is not an array")
 	}
+	// getCommittee / getNextBlockValidators: the contract's answers against the Blockchain-level accessors
+	for j, want := range []keys.PublicKeys{post.sortedCom, post.nextVals} {
+		arr, ok := st[3+j].Value().([]stackitem.Item)
+		if !ok || len(arr) != len(want) {
+			fail("getter-mismatch", "getCommittee/getNextBlockValidators (%d) shape", j)
+			continue
+		}
+		for i := range arr {
+			b, _ := arr[i].TryBytes()
+			if !bytes.Equal(b, want[i].Bytes()) {
+				fail("getter-mismatch", "getCommittee/getNextBlockValidators (%d) entry %d", j, i)
+			}
+		}
+	}
+	// getCandidates in the contract's order = GetEnrollments
+	if arr, ok := st[2].Value().([]stackitem.Item); ok && len(arr) == len(post.enroll) {
+		for i, e := range arr {
+			if f, ok := e.Value().([]stackitem.Item); ok && len(f) == 2 {
+				kb, _ := f[0].TryBytes()
+				if !bytes.Equal(kb, post.enroll[i].Key.Bytes()) {
+					fail("getter-mismatch", "getCandidates() order differs from GetEnrollments at %d", i)
+				}
+			}
+		}
+	}
 	zero := new(big.Int)
 	for i, h := range hs {
 		nb, gb, db := zero, zero, zero
@@ -273,7 +462,7 @@ func (w *world) getters(o *hx.Out, k int, idx uint32, post *absState) {
 		if d := post.deps[h]; d != nil {
 			db = d.amount
 		}
-		base := 3 + 4*i
+		base := nHead + 4*i
 		if intOf(st[base]).Cmp(nb) != 0 {
 			fail("getter-mismatch", "NEO.balanceOf(%s) = %s, storage %s", h.StringBE(), intOf(st[base]), nb)
 		}
